@@ -15,6 +15,47 @@ CHECKS = {
         design='5/C14', technique='deterministic simulation: model-based history checking with failing-operation faults',
         note='Trusts CPython list/dict/Decimal (shared by model and system) and the reference model in sim/model.py; '
              'host dicts restricted to string keys.'),
+    'C01': dict(
+        category='fault_enumeration',
+        text='For the last eval of every seeded history (1-3 evals over one shared names mapping, lambdas defined by '
+             'earlier evals, host callbacks incl. a swallowing one and one that re-enters the parser) EVERY budget N in '
+             '1..K+2 is run from an identical pre-state and compared with the unbounded twin: outcome, exact abort '
+             'point (N node starts), effect log == prefix, names == independent kill at node N, monotonicity, per-call '
+             'attribution of every node evaluation, default budget. Budgets are enumerated per program; programs and '
+             'histories are sampled.',
+        design='5/C01', technique='deterministic simulation: the op budget as an enumerated crash point (kill at the N-th operation) against an unbounded twin run',
+        note='K is counted by wrappers around every Op subclass\' eval installed from /verif (not read from the VM); '
+             'programs whose unbounded run exceeds 3000 operations are skipped; with a swallowing host only the gate '
+             'count is demanded.'),
+    'C03': dict(
+        category='exploration',
+        text='Seeded histories of element-adding / removing / container-deriving operations on host containers of 0, 1, '
+             '9998..10001 elements and on program-grown ones; at-cap atomic refusal and below-cap behaviour judged against '
+             'the reference model, plus a global growth bound checked on every node evaluation result and on everything '
+             'reachable from names/result. Six cap-bypass sites of the pinned tree are listed known findings (keyed by '
+             'producing site); any other site is a violation.',
+        design='5/C03', technique='deterministic simulation: boundary-state histories with the refused operation as the fault, model + growth-bound monitor',
+        note='B = max(10000, longest host-supplied list/dict/str); strings are not capped; derivatives of an already '
+             'oversized container are consequences, only growth beyond the largest container seen is reported.'),
+    'C11': dict(
+        category='exploration',
+        text='Seeded histories of parse/eval/list_names on one long-lived parser with invalid sources of every '
+             'constructed kind, failing programs, budget aborts, abandoned generators, asynchronous kills at sampled line '
+             'events inside the package, re-entry and interleaved names mappings; each call compared (result, exception '
+             'class and message, names, probe log) with the same call in a history-free twin universe (second import of '
+             'the package, module state and decimal context reset, pristine parser).',
+        design='5/C11', technique='deterministic simulation: crash/abandon/kill fault injection on a long-lived parser vs a history-free twin universe',
+        note='Pristine parser = deep copy of a never-used parser of the twin import (cross-checked against real '
+             'constructions on a sample); a killed call works on a scratch copy of names discarded in both universes.'),
+    'C17': dict(
+        category='exploration',
+        text='Seeded histories of parse/eval with repeated, near-duplicate and failing sources driving a parser with a '
+             'simulator-owned cache (dict, prewarmed, LRU 1-4, always-evicting, write-dropping, re-entering; evictions '
+             'between calls) and an uncached twin parser; host mutates returned results; names alternate. Oracle: '
+             'per-call equality, cached-tree snapshots never change, every entry equals an uncached parse of its key, '
+             'failures never cached.',
+        design='5/C17', technique='deterministic simulation: storage-node (cache) fault injection, cached world vs uncached twin world',
+        note='Legal cache faults only (a cache may forget, never lie); tree identity not demanded.'),
     'C07': dict(
         category='exploration',
         text='Seeded search over histories of eval calls on one parser and one persistent host names mapping; every '
